@@ -25,7 +25,7 @@ From Coq Require Import String ZArith List Bool Arith Lia.
 From SK Require Import Model.Skel Model.Stm Model.CallCount Model.Lifecycle
      Model.LifecycleSk Spec.Lifecycle
      Proofs.CallCount Proofs.LifecycleProgress Proofs.LifecycleTop
-     Gen.Skeleton Gen.SkelTree Gen.Exprs.
+     Gen.Skeleton Gen.SkelTree Gen.Exprs Gen.XLifecycle.
 Import ListNotations.
 Local Open Scope list_scope.
 Local Open Scope nat_scope.
@@ -109,11 +109,14 @@ Theorem C10_several_files_use_the_pool : forall files : Z,
 Proof. intros files H. unfold run_uses_pool. apply Z.ltb_lt. exact H. Qed.
 
 (* ThreadManager.stop(): the extracted body, executed for either value of
-   the `running` flag it tests, makes exactly the calls the model's
+   the `running` flag it tests (the polarity of the test - `if running:` or
+   the early-return spelling `if not running: return` - comes from
+   Gen/XLifecycle.v), makes exactly the calls the model's
    MStop*/MJoin* steps stand for: nothing for a thread never started,
    otherwise event.set() and THEN thread.join(); the flag is written *)
 Theorem C10_thread_stop_is_model : forall running,
-  run_if running Exec sk_tm_stop = model_stop_calls running.
+  run_if (xorb tm_stop_test_negated running) Exec sk_tm_stop
+  = model_stop_calls running.
 Proof. intros [|]; vm_compute; reflexivity. Qed.
 
 Theorem C10_thread_stop_shape :
@@ -190,6 +193,24 @@ Proof. vm_compute. repeat split; reflexivity. Qed.
 Theorem C10_exceptions_cross_processes :
   plain_exc_init sk_fse_init = true /\ plain_exc_init sk_rse_init = true.
 Proof. vm_compute. split; reflexivity. Qed.
+
+(* execute(): whatever the SEARCH of a file raises (also an OSError /
+   BadGzipFile from a damaged gzip stream, which the gzip PROBE's own
+   `except OSError` must not see) reaches the outer handler table, i.e. is
+   mapped by C10_execute_mapping; the same for the final flush and sync *)
+Theorem C10_search_failures_reach_the_table :
+  forallb (fun g =>
+    forallb (fun x => reaches_outer_table g x sk_execute)
+            ["OSError"; "EOFError"; "UnicodeDecodeError"; "RuntimeError"])
+    ["run_search"; "flush"; "sync"] = true.
+Proof. vm_compute. reflexivity. Qed.
+
+(* every FileSearchException raised in task.py / search.py is built from
+   text only: the object a worker pickles to report its failure never holds
+   the original exception (which need not be picklable) *)
+Theorem C10_only_text_crosses_processes :
+  only_text_raised fse_raise_sites = true.
+Proof. vm_compute. reflexivity. Qed.
 
 (* ------------------------------------------------------------- theorems *)
 (* a fault that fired is never followed by a normal return *)
@@ -550,6 +571,8 @@ Print Assumptions C10_kill_workers_lists_once.
 Print Assumptions C10_model_kill_step_total.
 Print Assumptions C10_plain_constructor_and_accessor.
 Print Assumptions C10_exceptions_cross_processes.
+Print Assumptions C10_search_failures_reach_the_table.
+Print Assumptions C10_only_text_crosses_processes.
 Print Assumptions C10_facts_ok.
 Print Assumptions C10_execute_mapping.
 Print Assumptions C10_main_mapping.
